@@ -1,6 +1,6 @@
 use proc_macro2::TokenStream;
 use quote::quote;
-use syn::{spanned::Spanned as _, Error, Result};
+use syn::{ext::IdentExt as _, spanned::Spanned as _, Error, Result};
 
 use crate::utils::{
     self, AttrParams, DeriveType, FullMetaInfo, HashSet, MetaInfo, MultiFieldData,
@@ -319,7 +319,8 @@ fn parse_fields<'input, 'state>(
             parse_fields_impl(state, |attr, field, _| {
                 // Unwrapping is safe, cause fields in named struct
                 // always have an ident
-                let ident = field.ident.as_ref().unwrap();
+                // `r#source` is the same name as `source`.
+                let ident = field.ident.as_ref().unwrap().unraw();
 
                 match attr {
                     "source" => ident == "source",
